@@ -32,13 +32,16 @@ macro_rules! harnesses {
 }
 
 pub mod emit;
+pub mod generated;
 pub mod number;
 pub mod strslice;
+pub mod varint;
 
 pub fn registry() -> Vec<(&'static str, fn(&mut ReplaySrc))> {
     let mut r = Vec::new();
     r.extend(number::registry());
     r.extend(emit::registry());
     r.extend(strslice::registry());
+    r.extend(varint::registry());
     r
 }
